@@ -288,6 +288,6 @@ def run_shard(ctx):
     quick = ctx.tier == "quick"
     ctx.drive("repeat", gen.run_case(T_max=150 if quick else 600, laws=LAWS, poo_ok_only=True, gpo_ok_only=True, script_prob=0.0,
                                      T_min=5, n_range=(100, 300) if quick else (100, 1000)),
-              check_case, ctx.budget(1600, 30000))
+              check_case, ctx.budget(2400, 30000))
     ctx.drive_machine("interleave", make_machine(ctx.col, "interleave"), ctx.budget(640, 12000), steps=20 if quick else 40)
     ctx.drive("process", process_cases(), check_case, ctx.budget(96, 960))
